@@ -625,6 +625,33 @@ func Units(tier string) []Unit {
 			}
 		}
 	}})
+	us = append(us, Unit{Name: "gradient-stops", Each: func(yield func([]byte) bool) {
+		// two stops and a matrix with huge entries (1e30, MaxFloat32, +Inf), every shape and spread
+		for _, bits := range []uint32{0x7149f2c8, 0x7f7ffffc, 0x7f800000, 0xf149f2c8} {
+			for v := 0; v < 8; v++ {
+				b := append(append([]byte{}, Magic...), 0x00, 0x0e, 0x4e) // CSEL 14, NSEL 14
+				for i := 0; i < 6; i++ {
+					b = append(b, 0xaf) // NREG[NSEL++] = real, 4-byte form
+					b = AppendF32(b, bits)
+				}
+				b = append(b, 0x14, 0x87, 0x10, 0x87, 0x60, 0xbf, 0x00, 0xbf, 0xf0) // CSEL 20; two colours; offsets 0 and 1
+				b = append(b, 0x13, 0x98, 0x02, byte(20|(v&3)<<6), byte(20|0x80|(v>>2)<<6), 0x00)
+				b = append(b, 0xc0, 0x70, 0x70, 0x01, 0x90, 0x70, 0x80, 0x90, 0xe1)
+				if !yield(b) {
+					return
+				}
+			}
+		}
+	}})
+	us = append(us, Unit{Name: "c02only/selector-run", Each: func(yield func([]byte) bool) {
+		b := make([]byte, 16<<20)
+		copy(b, Magic)
+		b[4] = 0x00
+		for i := 5; i < len(b); i++ {
+			b[i] = byte(i%2) * 0x41 // Set CSEL = 0, Set NSEL = 1, ...
+		}
+		yield(b)
+	}})
 	us = append(us, Unit{Name: "long-inputs", Each: func(yield func([]byte) bool) {
 		// valid streams around and well beyond 64 KiB, and the same with a reserved opcode at the end
 		pat := []byte{0x01, 0x41, 0xc0, 0x80, 0x80, 0x00, 0x82, 0x84, 0x41, 0x70, 0x90, 0xe1, 0x98, 0x30, 0x20, 0x07, 0x80}
